@@ -27,7 +27,7 @@ use rustc_middle::mir::{
     self, AggregateKind, BasicBlock, Body, Operand, Place, ProjectionElem, Rvalue, StatementKind,
     TerminatorKind, UnwindAction,
 };
-use rustc_middle::ty::print::{with_crate_prefix, with_no_trimmed_paths, PrintTraitRefExt};
+use rustc_middle::ty::print::{with_crate_prefix, with_no_trimmed_paths, with_no_visible_paths, PrintTraitRefExt};
 use rustc_middle::ty::{self, Instance, Ty, TyCtxt, TyKind, TypingEnv};
 use rustc_span::Span;
 
@@ -94,6 +94,21 @@ fn jopt(s: Option<String>) -> String {
 
 // ---------------------------------------------------------------------------------------
 
+/// counts user-written `unsafe { }` blocks in a HIR body (nested closures are separate bodies
+/// but their blocks are visited here too, which is what we want for the enclosing fn)
+struct UnsafeCounter {
+    count: usize,
+}
+
+impl<'v> rustc_hir::intravisit::Visitor<'v> for UnsafeCounter {
+    fn visit_block(&mut self, b: &'v rustc_hir::Block<'v>) {
+        if let rustc_hir::BlockCheckMode::UnsafeBlock(rustc_hir::UnsafeSource::UserProvided) = b.rules {
+            self.count += 1;
+        }
+        rustc_hir::intravisit::walk_block(self, b);
+    }
+}
+
 struct Cx<'tcx> {
     tcx: TyCtxt<'tcx>,
     types: Vec<String>,
@@ -101,11 +116,23 @@ struct Cx<'tcx> {
 }
 
 impl<'tcx> Cx<'tcx> {
+    /// Items of the analysed library seen from its binary are printed by their definition
+    /// path (not by the shortest re-export), so that bin call sites name lib functions.
+    fn real_path(&self, def_id: DefId) -> bool {
+        !def_id.is_local() && self.tcx.crate_name(def_id.krate).as_str() == "tree_sitter_graph"
+    }
+
     fn path(&self, def_id: DefId) -> String {
+        if self.real_path(def_id) {
+            return with_no_visible_paths!(with_no_trimmed_paths!(self.tcx.def_path_str(def_id)));
+        }
         with_no_trimmed_paths!(with_crate_prefix!(self.tcx.def_path_str(def_id)))
     }
 
     fn path_with_args(&self, def_id: DefId, args: ty::GenericArgsRef<'tcx>) -> String {
+        if self.real_path(def_id) {
+            return with_no_visible_paths!(with_no_trimmed_paths!(self.tcx.def_path_str_with_args(def_id, args)));
+        }
         with_no_trimmed_paths!(with_crate_prefix!(self.tcx.def_path_str_with_args(def_id, args)))
     }
 
@@ -839,10 +866,30 @@ impl<'tcx> Cx<'tcx> {
             items.push(("output", format!("{}", o)));
             items.push(("unsafe", jbool(sig.safety().is_unsafe())));
         }
+        if let Some(hb) = tcx.hir_maybe_body_owned_by(local) {
+            use rustc_hir::intravisit::Visitor;
+            let mut uc = UnsafeCounter { count: 0 };
+            uc.visit_body(hb);
+            items.push(("unsafe_blocks", format!("{}", uc.count)));
+        }
         if tcx.is_mir_available(def_id) {
             let body = tcx.optimized_mir(def_id);
             let b = self.body(local, body);
             items.push(("body", b));
+            // promoted constants: only their statements, rendered
+            let mut proms = Vec::new();
+            for pb in tcx.promoted_mir(def_id).iter() {
+                let mut lines = Vec::new();
+                for data in pb.basic_blocks.iter() {
+                    for st in &data.statements {
+                        if let StatementKind::Assign(..) = &st.kind {
+                            lines.push(js(&with_no_trimmed_paths!(format!("{:?}", st))));
+                        }
+                    }
+                }
+                proms.push(jarr(&lines));
+            }
+            items.push(("promoted", jarr(&proms)));
             // return type from body for closures
             let rt = self.ty(body.local_decls[mir::RETURN_PLACE].ty);
             items.push(("ret", format!("{}", rt)));
